@@ -53,7 +53,7 @@ def run(rep, tier):
     ok = any(isinstance(s, ast.Assign) and T(mod, s) == K("psirange=(psi0,psivals[-1])") for s in walk_own(f.node))
     rep.ob("R1", "psirange = (psi0, last target)", ok, f.site(), "", key="ode/range")
     rets = [r for r in walk_own(f.node) if isinstance(r, ast.Return)]
-    ok = any(T(mod, r.value) == K("[Point2D(*p)forpinsolution.y.T]") for r in rets)
+    ok = any(T(mod, r.value) == K("[Point2D(*p) for p in solution.y.T]") for r in rets)
     rep.ob("R1", "the result is the list of solution points, one per target value", ok, f.site(), "", key="ode/result")
     # the f_R, f_Z passed in are the equilibrium's
     init = prog.func(MESH, "MeshRegion.__init__")
@@ -125,8 +125,8 @@ def run(rep, tier):
                ("not passed: %s (falls back to the default) " % missing if missing else "") + ("changed: %s" % changed if changed else ""), key="forward/%d" % rec.index(c))
     rep.floor("R2.recursive-calls", len(rec), 3)
     src = T(mod, f.node)
-    ok = (K("left=[psiforpsiinpsivalsifpsi<psi0]") in src and K("right=[psiforpsiinpsivalsifpsi>=psi0]") in src
-          and K("left=[psiforpsiinpsivalsifpsi>=psi0]") in src and K("right=[psiforpsiinpsivalsifpsi<psi0]") in src and K("ifpsivals[0]<psi0:") in src)
+    ok = (K("left = [psi for psi in psivals if psi < psi0]") in src and K("right = [psi for psi in psivals if psi >= psi0]") in src
+          and K("left = [psi for psi in psivals if psi >= psi0]") in src and K("right = [psi for psi in psivals if psi < psi0]") in src and K("ifpsivals[0]<psi0:") in src)
     rep.ob("R2", "the split around psi0 is a partition (< versus >=), assigned to left/right by the side psivals starts on", ok, f.site(), "", key="partition")
     ok = K("ifmin(psivals)<psi0<max(psivals):") in src
     rep.ob("R2", "the split is taken only when psi0 lies strictly inside the target range", ok, f.site(), "", key="partition/guard")
